@@ -330,6 +330,7 @@ class Exec:
         self.rng = None
         self.merge_pure = False
         self.check_indirect_sigs = False
+        self.ref_div_traps = False     # the reference side's division traps are outcomes, not assumed away
         self._pure_cache = {}
 
     # ------------------------------------------------------------------ solver
@@ -892,7 +893,7 @@ class Exec:
                 trap = z3.Or(trap, z3.And(x == BV(INT_MIN), y == BV(-1)))
             r = (x / y) if op == "DIV" else z3.SRem(x, y)
             st.env[n] = Int(r)
-            if self.role == "ref":
+            if self.role == "ref" and not self.ref_div_traps:
                 ok = z3.simplify(z3.Not(trap))
                 if not z3.is_true(ok):
                     st.pc.append(ok)
@@ -1073,10 +1074,13 @@ def model_args(model, f, world):
     return {"arguments": out, "object_facts": facts, "object_fields": fields}
 
 
-def compare_function(name, progA, progB, bounds, enter=False, timeout_s=20, ignore_type_names=False, loose_refs=False):
-    """-> dict(status=equal|different|skipped, ...).  progA is the reference."""
+def compare_function(name, progA, progB, bounds, enter=False, timeout_s=20, ignore_type_names=False, loose_refs=False,
+                     name_b=None, typed=False, ref_div_traps=False):
+    """-> dict(status=equal|different|skipped, ...).  progA is the reference.  `name_b`: compare with a differently
+    named function of progB (source-level laws); `typed`: unknown arguments are well-formed values of their types."""
+    name_b = name_b or name
     fa = progA.fns[name]
-    fb = progB.fns[name]
+    fb = progB.fns[name_b]
     by_name = False
     if len(fa["ptypes"]) != len(fb["ptypes"]):
         # parameters were removed (constant-parameter elimination): the remaining ones are matched by name
@@ -1085,11 +1089,14 @@ def compare_function(name, progA, progB, bounds, enter=False, timeout_s=20, igno
         by_name = True
     world = World()
     world.is_subtype = progB.is_subtype
+    if typed:
+        world.types = progB.types
     solver = z3.Solver()
     exA = Exec(progA, world, "ref", enter, bounds, solver)
     exB = Exec(progB, world, "new", enter, bounds, solver)
     exA.ignore_type_names = exB.ignore_type_names = ignore_type_names
     exA.loose_refs = exB.loose_refs = loose_refs
+    exA.ref_div_traps = ref_div_traps
     args = mk_args(fa, world)
     t0 = time.time()
     tb = (bounds or {}).get("seconds")
@@ -1108,7 +1115,7 @@ def compare_function(name, progA, progB, bounds, enter=False, timeout_s=20, igno
             continue
         try:
             argsB = args if not by_name else [args[fa["params"].index(n)] for n in fb["params"]]
-            pathsB = exB.run(name, argsB, pa.pc, pa.model)
+            pathsB = exB.run(name_b, argsB, pa.pc, pa.model)
         except Unsupported as e:
             return {"status": "skipped", "why": "new side: %s" % e}
         res["paths_new"] += len(pathsB)
@@ -1132,7 +1139,7 @@ def compare_function(name, progA, progB, bounds, enter=False, timeout_s=20, igno
                 m = chk.model()
                 chk.pop()
                 res.update({"status": "different", "why": why, "witness": model_args(m, fa, world),
-                            "ref_outcome": pa.outcome, "new_outcome": pb.outcome,
+                            "ref_outcome": pa.outcome, "new_outcome": pb.outcome, "ref_why": pa.why, "new_why": pb.why,
                             "ref_trace": [t[0] for t in pa.trace], "new_trace": [t[0] for t in pb.trace],
                             "ref_value": str(m.eval(pa.value.t, model_completion=True)) if isinstance(pa.value, Int) else repr(pa.value),
                             "new_value": str(m.eval(pb.value.t, model_completion=True)) if isinstance(pb.value, Int) else repr(pb.value)})
